@@ -1033,7 +1033,7 @@ def abstract_option_run(model: Model, fi: FuncInfo, watch_calls=()):
                             try:
                                 v = it.ev(k.value)
                                 snaps[c] = dict(v.data) if isinstance(v, ADict) else None
-                            except (Unsupported, Raised):
+                            except (Unsupported, Raised, TypeError, AttributeError, KeyError, IndexError, ValueError):
                                 snaps[c] = None
             if isinstance(st, ast.With):
                 run(st.body)
@@ -1046,7 +1046,8 @@ def abstract_option_run(model: Model, fi: FuncInfo, watch_calls=()):
                 continue
             try:
                 it.run([st])
-            except (Unsupported, Raised, _Return):
+            except (Unsupported, Raised, _Return, TypeError, AttributeError, KeyError, IndexError, ValueError):
+                # (an opaque value used as a container: the statement is outside the dictionary vocabulary)
                 for n_ in ast.walk(st):
                     if isinstance(n_, ast.Name) and isinstance(n_.ctx, ast.Store) and isinstance(it.env.get(n_.id), ADict):
                         del it.env[n_.id]
